@@ -108,6 +108,14 @@ def rules():
         R.append(('const string CS = "hi"; const int[] CA = [1, 2, 3];\nempty @is_you() { write(%s[\'\\x01\'] is int); write(%s.length); }' % (srcx, srcx), True))
         if srcx != '[7, 8, 9]':
             R.append(('const string CS = "hi"; const int[] CA = [1, 2, 3];\nempty @is_you() { %s[%d] = 1; }' % (srcx, n), False))
+    # compound assignment is typed as `x = x op e`: numeric targets only, and the result must fit the target
+    cpre = 'int i = 1; byte b = 2; bool t = true; string s = "ab"; int[] ia = [1]; byte[] ba = [1]; bool[] ta = [true]; string[] sa = ["x"]; int j = 5; '
+    for op in ('+=', '-=', '*=', '/=', '%='):
+        for stmt, ok in (('i %s 2;', True), ('i %s b;', True), ('i %s j;', True), ('b %s 1;', True), ('b %s b;', True), ('b %s i;', False), ('b %s j + 1;', False),
+                         ('t %s true;', False), ('t %s t;', False), ('t %s 1;', False), ('s %s "cd";', False), ('s %s s;', False), ('s %s 1;', False),
+                         ('ia[0] %s 2;', True), ('ia[0] %s b;', True), ('ba[0] %s 1;', True), ('ba[0] %s i;', False), ('ta[0] %s true;', False), ('ta[0] %s ta[0];', False),
+                         ('sa[0] %s "y";', False), ('i %s true;', False), ('i %s "s";', False), ('i %s ia;', False)):
+            R.append((fn(cpre + (stmt % op)), ok))
     R += [(t, False) for t in frontend.empty_value_programs()]
     R += scope_rules()
     R += spec_rules()
